@@ -363,3 +363,55 @@ package rueidis
 //@   safety C15
 //@   ensures [C16 member-and-score] (len(values) == 2 && (values[0].typ == '$' || values[0].typ == '+') && (values[1].typ == ',' || values[1].typ == '$' || values[1].typ == '+')) ==> (s.Member == values[0].string() && s.Score == first(util.ToFloat64(values[1].string())) && err == second(util.ToFloat64(values[1].string())))
 //@   ensures [C16 wrong-length-is-error] len(values) != 2 ==> err != nil
+
+// ---------------------------------------------------------------------------------------------
+// C30 — Lua.Exec runs the script body at most once (lua.go). What is sent is pinned down at the call sites of the
+// command builders: EVALSHA(_RO) only for scripts with a SHA, EVAL(_RO) only for NoSha scripts or after the EVALSHA
+// reply was a NOSCRIPT error, the _RO forms exactly for read-only scripts, SCRIPT LOAD only while no SHA is known.
+// effects() counts round trips through the Client (every Do / DoMulti adds one).
+
+//@ func Client.Do
+//@   modifies *
+//@   ensures effects() == old(effects()) + 1
+// B() hands out a command builder: no round trip
+//@ func Client.B
+//@   ensures effects() == old(effects())
+//@ func Client.DoMulti
+//@   modifies *
+//@   ensures effects() == old(effects()) + 1 && len(resp) == len(multi)
+
+// the SHA of a script is written only by the script's own methods (and its constructor): a round trip through the
+// Client does not change it (residual assumption: the Client does not call back into the same script)
+//@ immutable [C30] Lua sha1 writers=Lua.Exec,Lua.ExecMulti,newLuaScript
+//@ immutable [C30] Lua script readonly noSha1 loadSha1 retryable writers=newLuaScript,WithLoadSHA1$1
+
+//@ func RedisError.IsNoScript
+//@   safety C30
+//@   ensures [C30 noscript-is-a-reply-that-starts-with-NOSCRIPT] result <==> strings.HasPrefix(r.string(), "NOSCRIPT")
+
+//@ func Lua.Exec
+//@   option opaque-pkgs=github.com/redis/rueidis/internal/cmds
+//@   modifies *
+//@   safety C30
+//@   assert [C30 evalsha-only-with-a-sha-and-never-for-nosha-scripts] at Evalsha: !s.noSha1 && scriptSha1 != "" && !s.readonly && effects() <= old(effects()) + 1
+//@   assert [C30 evalsha-ro-only-with-a-sha-and-never-for-nosha-scripts] at EvalshaRo: !s.noSha1 && scriptSha1 != "" && s.readonly && effects() <= old(effects()) + 1
+//@   assert [C30 eval-only-for-nosha-or-after-noscript] at Eval: !s.readonly && (s.noSha1 || (isNoScript && second(returned(IsRedisErr)) && first(returned(IsRedisErr)).IsNoScript()))
+//@   assert [C30 eval-ro-only-for-nosha-or-after-noscript] at EvalRo: s.readonly && (s.noSha1 || (isNoScript && second(returned(IsRedisErr)) && first(returned(IsRedisErr)).IsNoScript()))
+//@   assert [C30 script-load-only-while-no-sha-is-known] at ScriptLoad: s.loadSha1 && s.sha1 == "" && effects() == old(effects())
+//@   ensures [C30 at-most-load-evalsha-eval] effects() <= old(effects()) + 3
+//@   ensures [C30 without-load-at-most-evalsha-eval] (!s.loadSha1 || old(s.sha1) != "") ==> effects() <= old(effects()) + 2
+//@   ensures [C30 nosha-scripts-make-one-round-trip] (s.noSha1 && !s.loadSha1) ==> effects() == old(effects()) + 1
+//@   ensures [C30 a-learned-sha-is-kept] old(s.sha1) != "" ==> s.sha1 == old(s.sha1)
+
+//@ func Lua.ExecMulti
+//@   option opaque-pkgs=github.com/redis/rueidis/internal/cmds
+//@   modifies *
+//@   safety C30 index,slice,makeslice
+//@   assert [C30 evalsha-only-with-a-sha-and-never-for-nosha-scripts] at Evalsha: !s.noSha1 && scriptSha1 != "" && !s.readonly
+//@   assert [C30 evalsha-ro-only-with-a-sha-and-never-for-nosha-scripts] at EvalshaRo: !s.noSha1 && scriptSha1 != "" && s.readonly
+//@   assert [C30 eval-only-without-sha] at Eval: !s.readonly && (s.noSha1 || scriptSha1 == "")
+//@   assert [C30 eval-ro-only-without-sha] at EvalRo: s.readonly && (s.noSha1 || scriptSha1 == "")
+//@   ensures [C30 one-result-per-exec] len(resp) == len(multi)
+//@   ensures [C30 a-learned-sha-is-kept] old(s.sha1) != "" ==> s.sha1 == old(s.sha1)
+//@   loop 0: invariant [C30] 0 <= i && i <= len(resp) && len(resp) == len(multi)
+//@   loop 1: invariant [C30] rangeindex >= -1 && rangeindex < len(multi) && len(cmds) == rangeindex + 1 && (old(s.sha1) != "" ==> s.sha1 == old(s.sha1))
